@@ -22,6 +22,19 @@ log_l = -np.sum((pts2 - 0.5)**2, axis=1)
 probe = rngp.random((2000, 3))
 
 
+def sync(o, gen):
+    """give the bound and every bound inside it the generator `gen`"""
+    if o is None:
+        return
+    if hasattr(o, 'rng'):
+        o.rng = gen
+    for part in ('cube', 'ellipsoid', 'outer_bound'):
+        sync(getattr(o, part, None), gen)
+    for lst in ('bounds', 'neural_bounds'):
+        for m in getattr(o, lst, []):
+            sync(m, gen)
+
+
 def cases():
     r = lambda: np.random.default_rng(3)  # noqa: E731
     yield 'UnitCube', UnitCube, UnitCube.compute(3, rng=r())
@@ -40,6 +53,15 @@ def cases():
             u.sample(150)
             yield 'Union[unit={},{}]/split+sampled'.format(
                 unit, cls.__name__), Union, u
+    # more than ten members: names bound_10.. sort before bound_2
+    many = np.vstack([rngp.normal(size=(60, 2)) * 0.004 + c for c in
+                      [(0.1 + 0.2 * (i % 4), 0.15 + 0.22 * (i // 4))
+                       for i in range(13)]])
+    u = Union.compute(many, n_points_min=25, rng=r())
+    while u.split():
+        pass
+    u.sample(300)
+    yield 'Union[{} members]'.format(len(u.bounds)), Union, u
     for periodic in (None, np.array([0])):
         for nn in (0, 1):
             b = NautilusBound.compute(
@@ -59,14 +81,21 @@ with tempfile.TemporaryDirectory() as d:
             g = np.random.default_rng(99)
             with h5py.File(path, 'r') as f:
                 b2 = cls.read(f['b'], rng=g)
-            if hasattr(b, 'reset'):
-                b.reset(np.random.default_rng(99))
-                if name.startswith(('Union', 'Nautilus')):
-                    # reset clears the proposal cache: compare streams from the
-                    # state after the round trip instead
-                    pass
-            if not np.array_equal(b.contains(probe), b2.contains(probe)):
+            pr = probe[:, :b.n_dim] if hasattr(b, 'n_dim') else probe
+            if not np.array_equal(b.contains(pr), b2.contains(pr)):
                 bad.append(dict(case=name, what='contains differs'))
+            for o in (b, b2):
+                sync(o, np.random.default_rng(5))
+            if name.startswith(('Union', 'Nautilus')):
+                # same generator state on both sides: the future proposal
+                # stream and the volume estimate must coincide
+                s1, s2 = b.sample(2500), b2.sample(2500)
+                if not np.array_equal(s1, s2):
+                    bad.append(dict(case=name, what='sample stream after the '
+                                    'round trip differs'))
+                if b.log_v != b2.log_v:
+                    bad.append(dict(case=name, what='log_v after the round '
+                                    'trip differs'))
             if name.startswith(('UnitCube', 'Ellipsoid', 'Mixture')):
                 if not np.array_equal(b.sample(50), b2.sample(50)):
                     bad.append(dict(case=name, what='sample stream differs'))
@@ -74,6 +103,31 @@ with tempfile.TemporaryDirectory() as d:
                     bad.append(dict(case=name, what='log_v differs'))
         except Exception as e:
             bad.append(dict(case=name, what='raised {}: {}'.format(
+                type(e).__name__, str(e)[:80])))
+    # update(): serve points from the cache, update the file, read it back
+    for drawn in (40, 1500):
+        u = Union.compute(pts2, n_points_min=20, rng=np.random.default_rng(3))
+        u.split()
+        u.sample(100)
+        path = os.path.join(d, 'u{}.h5'.format(drawn))
+        try:
+            with h5py.File(path, 'w') as f:
+                u.write(f.create_group('b'))
+            u.sample(drawn)
+            with h5py.File(path, 'r+') as f:
+                u.update(f['b'])
+            with h5py.File(path, 'r') as f:
+                u2 = Union.read(f['b'], rng=np.random.default_rng(1))
+            if len(u2.points) != len(u.points) or not np.array_equal(
+                    u2.points, u.points) or u2.n_sample != u.n_sample or \
+                    u2.n_reject != u.n_reject:
+                bad.append(dict(case='Union.update after sample({})'.format(
+                    drawn), what='cache / counters read back ({} rows, n_sample'
+                    ' {}) differ from the object ({} rows, n_sample {})'.format(
+                        len(u2.points), u2.n_sample, len(u.points),
+                        u.n_sample)))
+        except Exception as e:
+            bad.append(dict(case='Union.update', what='raised {}: {}'.format(
                 type(e).__name__, str(e)[:80])))
 print(json.dumps(dict(violations=bad[:8])))
 sys.exit(1 if bad else 0)
